@@ -19,13 +19,39 @@
 (* "time" collides for two starts within a second, "entropy_once" after a   *)
 (* fork, "per_thread" between the threads of a process.                     *)
 (***************************************************************************)
-EXTENDS NixCommon
-CONSTANTS Procs, MaxClock, MaxIds, MaxStarts, SeedSource, Acts
-VARIABLES clock, running,
-          gen,      \* context -> generator it draws from (0 = none)
-          seed, ctr,\* generator -> state
-          ngen,     \* generators allocated so far
-          issued, fresh, dup
+EXTENDS Integers, FiniteSets
+CONSTANTS
+  \* @type: Set(Str);
+  Procs,
+  \* @type: Int;
+  MaxClock,
+  \* @type: Int;
+  MaxIds,
+  \* @type: Int;
+  MaxStarts,
+  \* @type: Str;
+  SeedSource,
+  \* @type: Set(Str);
+  Acts
+VARIABLES
+  \* @type: Int;
+  clock,
+  \* @type: Set(Str);
+  running,
+  \* @type: Str -> Int;
+  gen,      \* context -> generator it draws from (0 = none)
+  \* @type: Int -> Int;
+  seed,     \* generator -> state
+  \* @type: Int -> Int;
+  ctr,
+  \* @type: Int;
+  ngen,     \* generators allocated so far
+  \* @type: Set(<<Int, Int>>);
+  issued,
+  \* @type: Int;
+  fresh,
+  \* @type: Bool;
+  dup
 vars == <<clock, running, gen, seed, ctr, ngen, issued, fresh, dup>>
 Gens == 1..(MaxStarts + 1)
 
@@ -49,7 +75,8 @@ Thread(p, q) == /\ "Thread" \in Acts /\ p \in running /\ q \notin running /\ run
                    ELSE gen' = [gen EXCEPT ![q] = gen[p]] /\ UNCHANGED <<seed, ctr, ngen>>
                 /\ UNCHANGED <<clock, issued, fresh, dup>>
 CreateId(p) == /\ p \in running /\ Cardinality(issued) < MaxIds
-               /\ LET id == IF SeedSource = "entropy" THEN <<fresh, 0>> ELSE <<seed[gen[p]], ctr[gen[p]]>> IN
+               /\ LET \* @type: <<Int, Int>>;
+                      id == IF SeedSource = "entropy" THEN <<fresh, 0>> ELSE <<seed[gen[p]], ctr[gen[p]]>> IN
                   /\ dup' = (dup \/ id \in issued) /\ issued' = issued \cup {id}
                /\ fresh' = IF SeedSource = "entropy" THEN fresh + 1 ELSE fresh
                /\ ctr' = [ctr EXCEPT ![gen[p]] = @ + 1]
@@ -60,4 +87,5 @@ Next == \/ Tick
         \/ \E p, q \in Procs : Fork(p, q) \/ Thread(p, q)
 Spec == Init /\ [][Next]_vars
 IdsUnique == ~dup
+
 =============================================================================
